@@ -39,9 +39,10 @@ const c16ScriptResp2 = `document.getElementById('SAMLResponseForm').submit();`
 func c16Exec(c c16Case) (keys []string, detail, class string) {
 	keys, detail, class = c16ExecOn(world.SP(), c)
 	if len(keys) == 0 {
-		// a second page from the SAME instance with another relay state must carry that one
+		// a second page from the SAME instance with another relay state must carry that one, and
+		// the first page, still held by its caller, must still be the first page afterwards
 		sp := world.SP()
-		c16ExecOn(sp, c)
+		_, _, _, page1, doc1 := c16BuildAndJudge(sp, c)
 		c2 := c
 		c2.Relay = (c.Relay + 7) % len(c16Relay)
 		k2, d2, _ := c16ExecOn(sp, c2)
@@ -52,20 +53,39 @@ func c16Exec(c c16Case) (keys []string, detail, class string) {
 			detail += " | second call on the same instance: " + d2
 			class = "DIFFERS"
 		}
+		c16Build(sp, c) // restore the endpoint configuration of the first case before re-judging
+		if k1, d1, _ := c16JudgePage(sp, c, page1, doc1, nil, ""); len(k1) > 0 && c16Builders[c.Builder] != "BuildAuthBodyPost" {
+			keys = append(keys, "C16/"+c16Builders[c.Builder]+"/page-handed-out-earlier-changed-by-a-later-call")
+			detail += " | the first page, re-read after the second call: " + d1
+			class = "DIFFERS"
+		}
 	}
 	return keys, detail, class
 }
 
 func c16ExecOn(sp *saml2.SAMLServiceProvider, c c16Case) (keys []string, detail, class string) {
+	keys, detail, class, _, _ = c16BuildAndJudge(sp, c)
+	return
+}
+
+// c16BuildAndJudge also hands back the page the builder returned (the very slice, not a copy)
+// and the document bytes, so that the page can be judged again later.
+func c16BuildAndJudge(sp *saml2.SAMLServiceProvider, c c16Case) (keys []string, detail, class string, page []byte, docB []byte) {
+	var out, docBytes []byte
+	var err error
+	var p string
+	out, docBytes, err, p = c16Build(sp, c)
+	keys, detail, class = c16JudgePage(sp, c, out, docBytes, err, p)
+	return keys, detail, class, out, docBytes
+}
+
+func c16Build(sp *saml2.SAMLServiceProvider, c c16Case) (out []byte, docBytes []byte, err error, p string) {
 	sp.IdentityProviderSSOURL = c16Endpoints[c.Endpoint]
 	sp.IdentityProviderSLOURL = strings.Replace(c16Endpoints[c.Endpoint], "/sso", "/slo", 1)
 	sp.SignAuthnRequests = c.Sign
 	relay := c16Relay[c.Relay]
 	b := c16Builders[c.Builder]
-	var out []byte
-	var err error
-	var docBytes []byte
-	p := guard(func() {
+	p = guard(func() {
 		var doc *etree.Document
 		switch b {
 		case "BuildAuthBodyPost":
@@ -103,6 +123,12 @@ func c16ExecOn(sp *saml2.SAMLServiceProvider, c c16Case) (keys []string, detail,
 			out, err = sp.BuildLogoutResponseBodyPostFromDocument(relay, doc)
 		}
 	})
+	return out, docBytes, err, p
+}
+
+func c16JudgePage(sp *saml2.SAMLServiceProvider, c c16Case, out, docBytes []byte, err error, p string) (keys []string, detail, class string) {
+	relay := c16Relay[c.Relay]
+	b := c16Builders[c.Builder]
 	detail = fmt.Sprintf("builder=%s relay=%q doc=%s endpoint=%s sign=%v | err=%v panic=%q", b, relay, c16Docs[c.Doc], c16Endpoints[c.Endpoint], c.Sign, err, p)
 	kp := "C16/" + b + "/"
 	if p != "" {
